@@ -98,11 +98,42 @@ func (w *World) declareForged(p int, e *entry.Entry) string {
 
 // firstServedEntry returns the first declared entry whose block some peer still holds.
 func (w *World) firstServedEntry() ipfslog.Entry {
+	byHash := map[string]ipfslog.Entry{}
 	for _, e := range w.entries {
+		byHash[e.GetHash().String()] = e
+	}
+	held := func(c cid.Cid) bool {
 		for p := range w.peers {
-			if w.blocks.Has(p, e.GetHash()) {
-				return e
+			if w.blocks.Has(p, c) {
+				return true
 			}
+		}
+		return false
+	}
+	// served = its block and the blocks of everything it names, transitively, are held by somebody
+	memo := map[string]bool{}
+	var served func(c cid.Cid, depth int) bool
+	served = func(c cid.Cid, depth int) bool {
+		k := c.String()
+		if v, ok := memo[k]; ok {
+			return v
+		}
+		memo[k] = true // (cycles cannot occur; guards re-entry)
+		ok := held(c) && depth < 10000
+		if e, known := byHash[k]; ok && known {
+			for _, n := range append(append([]cid.Cid{}, e.GetNext()...), e.GetRefs()...) {
+				if !served(n, depth+1) {
+					ok = false
+					break
+				}
+			}
+		}
+		memo[k] = ok
+		return ok
+	}
+	for _, e := range w.entries {
+		if served(e.GetHash(), 0) {
+			return e
 		}
 	}
 	return nil
@@ -167,6 +198,7 @@ func (w *World) forge(ctx context.Context, toks []string) {
 		// signature by the wrong key where the key named by the id should have signed the attacker's key
 		sid, err := att.identity.Provider.Sign(ctx, att.identity, []byte(victim.identity.ID))
 		if err != nil {
+			w.lastForged = "e0"
 			w.printf("forged %d err %s\n", a, strings.ReplaceAll(err.Error(), "\n", " "))
 			return
 		}
@@ -185,6 +217,7 @@ func (w *World) forge(ctx context.Context, toks []string) {
 	}
 	ie, err := entry.CreateEntryWithIO(ctx, att.api, ident, data, nil, io)
 	if err != nil {
+		w.lastForged = "e0"
 		w.printf("forged %d err %s\n", a, strings.ReplaceAll(err.Error(), "\n", " "))
 		return
 	}
@@ -214,6 +247,7 @@ func (w *World) forge(ctx context.Context, toks []string) {
 		} else {
 			// (a nil refs list would be a non-canonical encoding, which Sync re-encodes differently: not a
 			// single-field mutation of the wire form)
+			w.lastForged = "e0" // (nothing was forged: a following `@last` must not pick an older entry)
 			w.printf("forged %d err nothing-to-reference\n", a)
 			return
 		}
@@ -266,6 +300,7 @@ func (w *World) forge(ctx context.Context, toks []string) {
 	if rehash && recipe != "honest" && recipe != "own" && recipe != "copiedid" && recipe != "foreignkey" && recipe != "otherlog" && recipe != "othertype" && recipe != "selfsigned" {
 		h, err := entry.ToMultihashWithIO(ctx, e, att.api, nil, io)
 		if err != nil {
+			w.lastForged = "e0"
 			w.printf("forged %d err %s\n", a, strings.ReplaceAll(err.Error(), "\n", " "))
 			return
 		}
